@@ -8,9 +8,10 @@
                       by Proofs/MethodsTie.v)
   gen/LoopsGen.v      functions with loops (BitVector scans, the bit and unary iterators; Rank9SelIndex / Rank9Sel and
                       DArrayIndex / DArray builders and selects; CompactVector, EliasFanoBuilder / EliasFano and its
-                      iterator, SArray, PrefixSummedEliasFano) as monadic Gallina over the loop combinators of
-                      Base/Loops.v (tied to the hand models by Proofs/LoopsTieBV.v, Proofs/LoopsTieIdx.v and
-                      Proofs/LoopsTieSeq.v)
+                      iterator, SArray, PrefixSummedEliasFano; DacsByte, DacsOpt incl. the dynamic program, and the
+                      generic WaveletMatrix<B>) as monadic Gallina over the loop combinators of
+                      Base/Loops.v (tied to the hand models by Proofs/LoopsTieBV.v, Proofs/LoopsTieIdx.v,
+                      Proofs/LoopsTieSeq.v and Proofs/LoopsTieDW.v)
   gen/fingerprints.json  hash of the normalised token stream of every non-test Rust function
 
 Files are rewritten only when their content changes (so `make` sees stable timestamps).
@@ -400,7 +401,7 @@ def ty_to_coq(t, generic=None):
 
 
 def parse_struct(src, name):
-    m = re.search(r"pub struct %s\s*(<\s*(?:'[a-z_]+|([A-Z]))\s*>)?\s*\{" % name, src)
+    m = re.search(r"pub struct %s\s*(<\s*(?:'[a-z_]+\s*,\s*[A-Z]|'[a-z_]+|([A-Z]))\s*>)?\s*\{" % name, src)
     if not m:
         raise ParseError("struct %s not found" % name)
     b0 = m.end() - 1
@@ -723,12 +724,23 @@ COQ_RESERVED = set("""as at cofix else end exists exists2 fix for forall fun if 
     cfg res W MASK64 list option N bool unit tt""".split())
 
 USIZE, BOOL, UNIT, ISIZE, U16 = ("usize",), ("bool",), ("unit",), ("isize",), ("u16",)
+U8 = ("u8",)                              # elements of Vec<u8> (DacsByte levels): an N below 256
+BACKING = ("backing",)                    # the type parameter B of WaveletMatrix<B>: the sum type `backing` (Model/Wavelet.v)
+TYPE_PARAMS = {"B": BACKING}              # type parameters of impl blocks (not bound by a where clause of the function)
 RANGEVAL = ("rangeval",)                  # a `Range<usize>` value (parameter / argument): the pair (start, end)
 # registry key -> name of the struct in its Rust file, where they differ (three structs are called `Iter`)
 RUST_NAME = {}
 ZCMPS = {"==": "Z.eqb %s %s", "!=": "negb (Z.eqb %s %s)", "<": "Z.ltb %s %s", "<=": "Z.leb %s %s",
          ">": "Z.ltb %s %s", ">=": "Z.leb %s %s"}
 LOOP_KINDS = ("for", "while", "whilelet", "loop")
+# traits of bit_vectors.rs that bound the type parameter B of WaveletMatrix<B>: trait -> methods
+BACKING_TRAITS = {"Access": ["access"], "Rank": ["rank1", "rank0"], "Select": ["select1", "select0"],
+                  "NumBits": ["num_bits", "num_ones", "num_zeros"], "Build": ["build_from_bits"]}
+# method of a value of type B -> (parameter types, result type); the callee is the dispatch function `backing_<name>`
+# defined in gen/LoopsGen.v over the generated impls of Rank9Sel, DArray and BitVector (LoopsGen.backing_dispatch)
+BACKING_METHODS = {"access": ([USIZE], ("opt", BOOL)), "rank1": ([USIZE], ("opt", USIZE)), "rank0": ([USIZE], ("opt", USIZE)),
+                   "select1": ([USIZE], ("opt", USIZE)), "select0": ([USIZE], ("opt", USIZE)),
+                   "num_bits": ([], USIZE), "num_ones": ([], USIZE), "num_zeros": ([], USIZE)}
 
 
 def coq_ident(name):
@@ -741,8 +753,13 @@ def parse_rtype(s, self_name, generics=None):
     s = " ".join(s.split())
     s = re.sub(r"^&\s*('[a-z_]+\s+)?(mut\s+)?", "", s)
     s = re.sub(r"\s*<\s*'[a-z_]+\s*>$", "", s)           # Iter<'a>, UnaryIter<'a>
+    gm = re.fullmatch(r"([A-Z][A-Za-z0-9]*)\s*<\s*(?:'[a-z_]+\s*,\s*)?B\s*>", s)     # WaveletMatrix<B>, Iter<'a, B>
+    if gm and gm.group(1) not in ("Option", "Vec", "Result", "Range"):
+        s = gm.group(1)
     if generics and s in generics:
         return generics[s]
+    if s in TYPE_PARAMS:
+        return TYPE_PARAMS[s]
     if s == "Range<usize>":                               # a `lo..hi` value: the pair (lo, hi)
         return RANGEVAL
     if s.startswith("(") and s.endswith(")") and s != "()":
@@ -753,7 +770,7 @@ def parse_rtype(s, self_name, generics=None):
         return BOOL
     if s == "()":
         return UNIT
-    if s in ("isize", "u16"):                 # stored in some records; casts, comparisons, isize `-` (LoopsGen)
+    if s in ("isize", "u16", "u8"):           # stored in some records; casts, comparisons, isize `-` (LoopsGen)
         return (s,)
     m = re.fullmatch(r"(Option|Vec|Result)\s*<(.*)>", s)
     if m:
@@ -781,8 +798,10 @@ def coq_type(t):
         return "unit"
     if k == "isize":
         return "Z"
-    if k == "u16":
+    if k in ("u16", "u8"):
         return "N"
+    if k == "backing":
+        return "backing"
     if k == "rangeval":
         return "(N * N)"
     if k == "tuple":
@@ -975,6 +994,11 @@ class MethodsGen:
         """(coq name, item type) of the generated `Iterator::next` of a struct, or None (LoopsGen only)"""
         return None
 
+    recursion = {}             # (module, fn) -> fuel term of a self-recursive function (LoopsGen only)
+
+    def backing_dispatch(self):
+        raise ParseError("values of a type parameter are only supported in gen/LoopsGen.v")
+
     broadword_consts = {}      # constants of broadword.rs usable as `broadword::NAME` (LoopsGen only)
     broadword_fns = {}         # functions of broadword.rs called in their generated form (LoopsGen only)
 
@@ -1010,6 +1034,10 @@ class MethodsGen:
             return "gen", info["name"], self.signature(owner, name, self.target_trait(mod, name))
         raise ParseError("call to %s::%s, which is neither a translated function nor a known model function" % (owner, name))
 
+    def has_default_target(self, owner):
+        mod = self.module_of_owner.get(owner)
+        return mod is not None and ("Default", "default") in self.targets.get(mod, [])
+
     def has_derive_default(self, owner):
         m = re.search(r"#\[derive\(([^)]*)\)\]\s*pub struct %s\b" % RUST_NAME.get(owner, owner), self.src[owner])
         return bool(m and "Default" in [x.strip() for x in m.group(1).split(",")])
@@ -1039,6 +1067,8 @@ class MethodsGen:
         if key in self.done:
             return self.done[key]
         if key in self.stack:
+            if key == self.stack[-1] and key in self.recursion:     # a registered self-recursive function calls itself
+                return dict(name="%s_%s_rec fuel_" % key, text=None, pure=False, kind=False)
             raise ParseError("recursive call cycle through %s::%s" % key)
         self.stack.append(key)
         try:
@@ -1055,7 +1085,7 @@ class MethodsGen:
                 what = ex if isinstance(ex, ParseError) else "outside the supported subset (%s: %s)" % (
                     type(ex).__name__, ex)
                 raise ParseError("target %s::%s (%s): %s" % (mod, name, self.type_files[owner], what))
-            info = dict(name="%s_%s" % (mod, name), text=text, pure=pure)
+            info = dict(name="%s_%s" % (mod, name), text=text, pure=pure, kind=tr.uses_kind)
             self.done[key] = info
             self.order.append(key)
             return info
@@ -1085,6 +1115,7 @@ class FnBody:
         self.env = {}                 # rust name -> (coq name, type)
         self.assigned = [set()]       # per open scope: outer variables rebound in it
         self.declared = [set()]       # per open scope: variables introduced by `let` in it
+        self.uses_kind = False        # the body names the type parameter B: the function takes `kind_ : bkind`
         self.value_scope = 0          # > 0: inside a conditional *expression*: no return / ? / assignment
         self.join_scope = 0           # > 0: inside an if/else statement without return: no return / ?
         # `self` / `mut self` by value: an ordinary value named self (its fields may be assigned when `mut`)
@@ -1121,6 +1152,30 @@ class FnBody:
             raise ParseError("fields of %s are not modelled" % owner)
         return fields
 
+    def dummy(self, ty):
+        """some value of the type: the default argument of `idx` (never returned: idx panics out of range)"""
+        k = ty[0]
+        if k in ("usize", "u16", "u8"):
+            return "0"
+        if k == "isize":
+            return "0%Z"
+        if k == "bool":
+            return "false"
+        if k == "vec":
+            return "[]"
+        if k == "opt":
+            return "None"
+        if k == "rangeval":
+            return "(0, 0)"
+        if k == "tuple":
+            return "(%s)" % ", ".join(self.dummy(x) for x in ty[1])
+        if k == "backing":
+            return "(BBitVec {| bv_words := []; bv_len := 0 |})"
+        if k == "struct":
+            return "{| %s |}" % "; ".join("%s := %s" % (p, self.dummy(parse_rtype(t, ty[1])))
+                                          for _, t, p in self.record_fields(ty[1]))
+        raise ParseError("no value of type %r" % (ty,))
+
     def rebuild(self, owner, term, field, new):
         return "{| %s |}" % "; ".join("%s := %s" % (p, new if f == field else "%s %s" % (p, term))
                                       for f, _, p in self.record_fields(owner))
@@ -1148,6 +1203,13 @@ class FnBody:
             if scratch or qty[0] != "struct":
                 raise ParseError("unsupported place expression")
             return self.set_place(place[1], self.rebuild(qty[1], qt, place[2], new), out)
+        if place[0] == "index":                               # v[i] as (part of) a place: v and i are re-read
+            scratch = []
+            bt, bty = self.expr(place[1], scratch)
+            it, ity = self.expr(place[2], scratch)
+            if scratch or bt is None or bty[0] != "vec" or ity != USIZE:
+                raise ParseError("unsupported place expression (an element of a vector that is itself computed)")
+            return self.set_place(place[1], "(setN %s %s %s)" % (bt, it, new), out)
         raise ParseError("unsupported place expression")
 
     def note_assigned(self, name):
@@ -1162,6 +1224,9 @@ class FnBody:
             ast = ast[1]
         if ast[0] == "var" and ast[1] in self.env and self.env[ast[1]][1] == ("vec", None) and ty[1] is not None:
             self.env[ast[1]] = (self.env[ast[1]][0], ty)
+        if ast[0] == "index" and ast[1][0] == "var" and ast[1][1] in self.env \
+                and self.env[ast[1][1]][1] == ("vec", ("vec", None)) and ty[1] is not None:
+            self.env[ast[1][1]] = (self.env[ast[1][1]][0], ("vec", ty))      # vec![vec![]; n]: rows learn their type
 
     def restore_env(self, saved, inner_declared):
         """leave a scope: back to the saved environment, keeping element types learnt for outer `vec![]` variables"""
@@ -1169,6 +1234,10 @@ class FnBody:
             if ty == ("vec", None) and n not in inner_declared and n in self.env:
                 ity = self.env[n][1]
                 if ity[0] == "vec" and ity[1] is not None:
+                    saved[n] = (cn, ity)
+            if ty == ("vec", ("vec", None)) and n not in inner_declared and n in self.env:
+                ity = self.env[n][1]
+                if ity[0] == "vec" and ity[1] is not None and ity[1][0] == "vec" and ity[1][1] is not None:
                     saved[n] = (cn, ity)
         self.env = saved
 
@@ -1260,6 +1329,8 @@ class FnBody:
             raise ParseError("`&mut` is only supported as the argument for a `&mut` parameter")
         if k == "un":
             t, ty = self.expr(e[2], out)
+            if e[1] == "*" and t is not None and ty[0] in ("usize", "bool", "u8", "u16", "isize"):
+                return t, ty                                   # `*r` of a reference to a Copy value
             if e[1] == "!" and ty == BOOL:
                 return "(negb %s)" % t, BOOL
             if e[1] == "!" and ty == USIZE:
@@ -1284,9 +1355,9 @@ class FnBody:
         if k == "index":
             vt, vty = self.expr(e[1], out)
             it, ity = self.expr(e[2], out)
-            if vty[0] != "vec" or ity != USIZE or vty[1] not in (USIZE, ISIZE, U16):
+            if vty[0] != "vec" or ity != USIZE or vty[1] is None or vt is None:
                 raise ParseError("unsupported indexing")
-            return self.bind(out, "idx %s %s %s" % ("0%Z" if vty[1] == ISIZE else "0", vt, it)), vty[1]
+            return self.bind(out, "idx %s %s %s" % (self.dummy(vty[1]), vt, it)), vty[1]
         if k == "tuple" and not e[1]:
             return "tt", UNIT
         if k == "tuple":
@@ -1301,7 +1372,7 @@ class FnBody:
         if k == "vecrep":                                      # vec![elem; count]
             t, ty = self.expr(e[1], out)
             n, nty = self.expr(e[2], out)
-            if nty != USIZE or ty not in (USIZE, BOOL):
+            if nty != USIZE or t is None or ty[0] not in ("usize", "bool", "vec", "struct"):
                 raise ParseError("unsupported vec![..; ..]")
             return "(repeat %s (N.to_nat %s))" % (t, n), ("vec", ty)
         if k == "call":
@@ -1477,9 +1548,25 @@ class FnBody:
             return self.bind(out, ite(fty[1], self.res_of(o1, t1), self.res_of(o2, t2))), ty1
         if f[0] == "var" and f[1] in ("Ok", "Err"):
             raise ParseError("%s(..) is only supported as the result of the function" % f[1])
+        if f[0] == "path" and len(f[1]) == 3 and f[1][0] == "bit_vectors" and f[1][1] in BACKING_TRAITS \
+                and f[1][2] in BACKING_TRAITS[f[1][1]] and args:
+            recv = args[0][1] if args[0][0] == "ref" else args[0]        # Trait::method(&x, ..) is x.method(..)
+            return self.mcall(("mcall", recv, f[1][2], args[1:]), out)
         if f[0] != "path" or len(f[1]) != 2:
             raise ParseError("unsupported callee")
         owner, name = f[1]
+        if (owner, name) == ("u8", "try_from") and len(args) == 1:        # Result<u8, _>: Err iff the value is >= 256
+            t, ty = self.expr(args[0], out)
+            if ty != USIZE:
+                raise ParseError("u8::try_from of a non-usize")
+            return "(if N.ltb %s 256 then Some %s else None)" % (t, t), ("result", U8)
+        if (owner, name) == ("usize", "from") and len(args) == 1:
+            t, ty = self.expr(args[0], out)
+            if ty not in (U8, U16):
+                raise ParseError("usize::from of %r" % (ty,))
+            return t, USIZE
+        if owner in TYPE_PARAMS:
+            return self.type_param_call(owner, name, args, out)
         if owner == "Self":
             owner = self.owner
         owner = self.gen.alias(self.owner, owner)
@@ -1487,6 +1574,8 @@ class FnBody:
             if len(args) != 1 or self.expr(args[0], out)[1] != USIZE:    # evaluated for its effects only
                 raise ParseError("Vec::with_capacity takes a usize")
             return "[]", ("vec", None)                                    # allocation is not modelled
+        if name == "default" and not args and owner in RECORDS and self.gen.has_default_target(owner):
+            return self.call_fn(owner, name, None, args, out)             # a hand-written `impl Default`
         if name == "default" and not args and owner in RECORDS:
             return self.gen.default_term(("struct", owner)), ("struct", owner)
         return self.call_fn(owner, name, None, args, out)
@@ -1497,6 +1586,8 @@ class FnBody:
     def call_fn(self, owner, name, recv, args, out, recv_place=None):
         """recv: None (static) or (term, type) already evaluated"""
         how, what, (skind, ptys, rty) = self.resolve(owner, name)
+        if how == "gen" and any(d["name"] == what and d.get("kind") for d in self.gen.done.values()):
+            raise ParseError("%s::%s depends on the type parameter of its impl block: calls are not supported" % (owner, name))
         if (recv is None) != (skind == "static"):
             raise ParseError("%s::%s: receiver does not match its signature" % (owner, name))
         if len(args) != len(ptys):
@@ -1556,6 +1647,43 @@ class FnBody:
             return self.bind(out, callterm), ("result", rty[1])          # represented as an option
         return self.bind(out, callterm), rty
 
+    def map_collect(self, vec_ast, f, out):
+        """v.iter().map(f).collect() into a Vec: `map` (effect-free f) or `map_res` (Base/Res.v), in order"""
+        lt, lty = self.expr(vec_ast, out)
+        if lty[0] != "vec" or lty[1] is None or lt is None:
+            raise ParseError("map(..).collect() over something that is not a vector")
+        if f[0] == "path":                                    # a function as the argument of map
+            f = ("closure", ["elem_"], ("call", f, [("var", "elem_")]))
+        o, t, ty, x = self.closure_body(self.closure_arg(f, 1), lty[1])
+        if t is None:
+            raise ParseError("unsupported closure value")
+        if not o:
+            return "(map (fun %s => %s) %s)" % (x, t, lt), ("vec", ty)
+        return self.bind(out, "map_res (fun %s =>\n%s\n  ) %s" % (x, indent(self.res_of(o, t), 4), lt)), ("vec", ty)
+
+    def type_param_call(self, owner, name, args, out):
+        """`B::build_from_bits(bits, r, s1, s0)`: the dispatch function over the three supported backings; the type
+        becomes the explicit parameter `kind_ : bkind` of the generated function"""
+        if name != "build_from_bits" or len(args) != 4 or self.kind != "static":
+            raise ParseError("unsupported associated function %s::%s" % (owner, name))
+        self.gen.backing_dispatch()
+        t, ty = self.expr(args[0], out)
+        if ty[0] == "struct" and self.gen.iterator_next(ty[1]) is not None:
+            nxt, item = self.gen.iterator_next(ty[1])
+            if item != BOOL:
+                raise ParseError("%s::%s: the iterator yields %r, expected bool" % (owner, name, item))
+            t, ty = self.bind(out, "iter_collect (%s c) %s" % (nxt, t)), ("vec", BOOL)
+        if ty != ("vec", BOOL) or t is None:
+            raise ParseError("%s::%s: unsupported bit stream argument" % (owner, name))
+        ats = [t]
+        for a in args[1:]:
+            bt, bty = self.expr(a, out)
+            if bty != BOOL:
+                raise ParseError("%s::%s: non-boolean flag" % (owner, name))
+            ats.append(bt)
+        self.uses_kind = True
+        return self.bind(out, "backing_build_from_bits c kind_ %s" % " ".join(ats)), ("result", BACKING)
+
     def closure_arg(self, e, nparams):
         if e[0] != "closure" or len(e[1]) != nparams:
             raise ParseError("expected a closure with %d parameter(s)" % nparams)
@@ -1587,11 +1715,46 @@ class FnBody:
             if self.loop_stmt(("for", clo[1][0], recv_ast, body), out):
                 raise ParseError("internal: a for loop always falls through")
             return "tt", UNIT
+        # v.iter().map(f).collect()  v.into_iter().map(f).collect()  v.iter().sum::<usize>()
+        if name == "collect" and not args and recv_ast[0] == "mcall" and recv_ast[2] == "map" and len(recv_ast[3]) == 1 \
+                and recv_ast[1][0] == "mcall" and recv_ast[1][2] in ("iter", "into_iter") and not recv_ast[1][3]:
+            return self.map_collect(recv_ast[1][1], recv_ast[3][0], out)
+        if name == "sum" and not args and recv_ast[0] == "mcall" and recv_ast[2] == "iter" and not recv_ast[3]:
+            lt, lty = self.expr(recv_ast[1], out)
+            if lty != ("vec", USIZE):
+                raise ParseError("sum of something that is not a vector of usize")
+            return self.bind(out, "fold_res (fun a_ x_ => add c a_ x_) %s 0" % lt), USIZE    # overflow as for `+`
         rt, rty = self.expr(recv_ast, out)
         k = rty[0]
+        if k == "struct" and name == "max" and not args and self.gen.iterator_next(rty[1]) is not None:
+            nxt, item = self.gen.iterator_next(rty[1])         # Iterator::max: None for an empty iterator
+            if item != USIZE:
+                raise ParseError("max of an iterator over %r" % (item,))
+            lst = self.bind(out, "iter_collect (%s c) %s" % (nxt, rt))
+            return "(list_max_opt %s)" % lst, ("opt", USIZE)
         if k == "struct":
             return self.call_fn(rty[1], name, (rt, rty), args, out, recv_place=recv_ast)
+        if k == "backing":
+            if name not in BACKING_METHODS or len(args) != len(BACKING_METHODS[name][0]):
+                raise ParseError("unsupported method .%s() on a value of the type parameter" % name)
+            ats = []
+            for a, pty in zip(args, BACKING_METHODS[name][0]):
+                t, ty = self.expr(a, out)
+                if ty != pty or t is None:
+                    raise ParseError(".%s(): argument of type %r, expected %r" % (name, ty, pty))
+                ats.append(t)
+            self.gen.backing_dispatch()
+            return self.bind(out, " ".join(["backing_%s c %s" % (name, rt)] + ats)), BACKING_METHODS[name][1]
         if k == "vec":
+            if name == "extend_from_slice" and len(args) == 1:
+                t, ty = self.expr(args[0], out)
+                if rty[1] is None and ty[0] == "vec" and ty[1] is not None:
+                    rty = ty
+                    self.refine_vec(recv_ast, rty)
+                if ty != rty or t is None:
+                    raise ParseError("extend_from_slice of %r onto %r" % (ty, rty))
+                self.set_place(recv_ast, "(%s ++ %s)" % (rt, t), out)
+                return "tt", UNIT
             if name == "get" and len(args) == 1 and rty[1] == USIZE:
                 it, ity = self.expr(args[0], out)
                 if ity != USIZE:
@@ -1603,6 +1766,8 @@ class FnBody:
                 return "(N.eqb (lenN %s) 0)" % rt, BOOL
             if name == "push" and len(args) == 1:
                 t, ty = self.expr(args[0], out)
+                if ty[0] == "range" and not ty[3]:             # push(a..b): the pair (a, b)
+                    t, ty = "(%s, %s)" % (ty[1], ty[2]), RANGEVAL
                 if rty[1] is None and t is not None:           # created by `vec![]`
                     rty = ("vec", ty)
                     self.refine_vec(recv_ast, rty)
@@ -1697,6 +1862,8 @@ class FnBody:
                 return "(N.min (%s + %s) MASK64)" % (rt, ats[0][0]), USIZE
             if name == "max" and len(ats) == 1:
                 return "(N.max %s %s)" % (rt, ats[0][0]), USIZE
+            if name == "min" and len(ats) == 1:
+                return "(N.min %s %s)" % (rt, ats[0][0]), USIZE
             if name == "to_usize" and not ats:                           # ToPrimitive::to_usize at T = usize
                 return "(Some %s)" % rt, ("opt", USIZE)
             if name in ("wrapping_mul", "wrapping_shl") and len(ats) == 1:
@@ -1723,8 +1890,12 @@ class FnBody:
                     raise ParseError("fold whose closure does not return the type of the initial value")
                 return self.bind(out, "fold_res (fun %s %s =>\n%s\n  ) (nrange %s %s) %s" % (
                     coq_ident(acc), coq_ident(i), indent(self.res_of(o, t), 4), rty[1], rty[2], init)), ity
+            if name == "len" and not args and not rty[3]:              # ExactSizeIterator::len of a..b
+                return "(if N.leb %s %s then %s - %s else 0)" % (rty[1], rty[2], rty[2], rty[1]), USIZE
             raise ParseError("unsupported range method .%s()" % name)
         if k == "rangeval":
+            if name == "len" and not args:
+                return "(if N.leb (fst %s) (snd %s) then (snd %s) - (fst %s) else 0)" % (rt, rt, rt, rt), USIZE
             if name == "is_empty" and not args:
                 return "(N.leb (snd %s) (fst %s))" % (rt, rt), BOOL
             raise ParseError("unsupported Range method .%s()" % name)
@@ -1825,6 +1996,13 @@ class FnBody:
             self.loops[-1]["left"] = True
             out[:] = [("final", render(out, self.loops[-1]["brk"]))]
             return True
+        if k == "continue":                                       # the next iteration: the step ends with the state
+            if not self.loops:
+                raise ParseError("`continue` outside a loop")
+            if self.value_scope or self.join_scope:
+                raise ParseError("continue inside a conditional expression or a joined if/else")
+            out[:] = [("final", render(out, self.loops[-1]["cont"]))]
+            return True
         if k == "expr":
             e = s[1]
             if e[0] == "macro":
@@ -1841,6 +2019,9 @@ class FnBody:
         raise ParseError("unsupported statement kind %s" % k)
 
     def assert_macro(self, e, out):
+        if e[1] in ("assert_eq", "assert_ne", "debug_assert_eq", "debug_assert_ne") and len(e[2]) == 2:
+            cmp_ = ("bin", "==" if e[1].endswith("_eq") else "!=", e[2][0], e[2][1])    # left operand first, as the macro
+            e = ("macro", "debug_assert" if e[1].startswith("debug_") else "assert", [cmp_])
         if e[1] not in ("debug_assert", "assert") or not e[2]:
             raise ParseError("unsupported macro %s!" % e[1])
         o, cond, cty = self.value_block(lambda o: self.expr(e[2][0], o))
@@ -1876,13 +2057,16 @@ class FnBody:
         if lhs[0] == "index":
             scratch = []
             vt, vty = self.expr(lhs[1], scratch)
-            if scratch or vty != ("vec", USIZE) or ty != USIZE:
+            if scratch and lhs[1][0] == "index":              # m[j][r] = e: the row m[j] is read (bounds check) first
+                out.extend(scratch)
+                scratch = []
+            if scratch or vt is None or vty[0] != "vec" or vty[1] != ty or (op is not None and ty != USIZE) or t is None:
                 raise ParseError("unsupported indexed assignment")
             it, ity = self.expr(lhs[2], out)
             if ity != USIZE:
                 raise ParseError("non-usize index")
             if op is None:
-                out.append(("bind", "_", "idx 0 %s %s" % (vt, it)))
+                out.append(("bind", "_", "idx %s %s %s" % (self.dummy(ty), vt, it)))
                 new = t
             else:
                 old = self.bind(out, "idx 0 %s %s" % (vt, it))
@@ -1897,13 +2081,13 @@ class FnBody:
 
     @staticmethod
     def ends_with_return(block):
-        return bool(block[1]) and block[1][-1][0] in ("return", "break", "panic") and block[2] is None
+        return bool(block[1]) and block[1][-1][0] in ("return", "break", "continue", "panic") and block[2] is None
 
     @classmethod
     def contains_return(cls, node, brk=True):
         """does node contain `return` / `?` (anywhere) or, with brk, a `break` of the enclosing loop"""
         if isinstance(node, tuple):
-            if node and (node[0] in ("return", "try") or (brk and node[0] == "break")):
+            if node and (node[0] in ("return", "try") or (brk and node[0] in ("break", "continue"))):
                 return True
             if node and node[0] in ("for", "while", "whilelet", "loop"):
                 brk = False                                       # a `break` in there leaves the inner loop
@@ -1930,12 +2114,12 @@ class FnBody:
     def fin_res(self, out, t):
         return self.res_of(out, t) if self.ret_wrap is None else self.fin(out, t)
 
-    def inline_block(self, blk, out):
+    def inline_block(self, blk, out, allow=()):
         """the statements of a block that is entered unconditionally at this point (the else part of a jumping
-        `if`); True if it ends with a jump"""
+        `if`); True if it ends with a jump.  allow: names that may be shadowed (the pattern variables of a loop body)"""
         for st in blk[1]:
             for n in ([st[1]] if st[0] == "let" else st[1] if st[0] == "lettuple" else []):
-                if n in self.env:
+                if n in self.env and n not in allow:
                     raise ParseError("block-local `%s` shadows an outer variable" % n)
         if self.stmts(blk[1], out):
             if blk[2] is not None:
@@ -2205,6 +2389,18 @@ class FnBody:
     #      is a break; a `loop` without `break` cannot fall through: return v = Ok (inr v) and the loop is the result
     def iter_list(self, e, out):
         """the list a `for` loop runs over (evaluated once, before the loop)"""
+        if e[0] == "mcall" and e[2] == "enumerate" and not e[3] and e[1][0] == "mcall" and e[1][2] == "iter" and not e[1][3]:
+            t, ty = self.iter_list(e[1][1], out)               # v.iter().enumerate(): the pairs (index, element)
+            return "(enumerate %s)" % t, ("tuple", [USIZE, ty])
+        if e[0] == "mcall" and e[2] == "rev" and not e[3] and e[1][0] == "bin" and e[1][1] == "..":
+            t, ty = self.iter_list(e[1], out)                  # (a..b).rev()
+            return "(rev %s)" % t, ty
+        if e[0] == "bin" and e[1] == "..=":                    # a..=b
+            a, aty = self.expr(e[2], out)
+            b, bty = self.expr(e[3], out)
+            if aty != USIZE or bty != USIZE:
+                raise ParseError("range over non-usize")
+            return "(nrange_incl %s %s)" % (a, b), USIZE
         while e[0] == "ref" or (e[0] == "mcall" and e[2] in ("iter", "into_iter") and not e[3]):
             e = e[1]
         if e[0] == "mcall" and e[2] == "step_by" and len(e[3]) == 1 and e[1][0] == "bin" and e[1][1] == "..":
@@ -2235,7 +2431,7 @@ class FnBody:
             probe = probe[1]
         if not (probe[0] == "mcall" or probe[0] == "call" or (probe[0] == "var" and probe[1] in self.env)):
             return None
-        if probe[0] == "mcall" and probe[2] in ("iter", "into_iter", "step_by"):
+        if probe[0] == "mcall" and probe[2] in ("iter", "into_iter", "step_by", "rev", "enumerate"):
             scratch = []
             try:
                 rty = self.expr(probe[1], scratch)[1]
@@ -2289,7 +2485,7 @@ class FnBody:
             cont, brk, wrap = "Ok (inl %s)" % ph, "Ok (inr (inl %s))" % ph, "(inr (inr %s))"
         else:
             cont, brk, wrap = "Ok (inl %s)" % ph, None, "(inr %s)"
-        ctx = dict(brk=brk, left=False, declared=set())
+        ctx = dict(brk=brk, cont=cont, left=False, declared=set())
         saved_wrap = self.ret_wrap
         self.loops.append(ctx)
         if has_ret:
@@ -2315,11 +2511,17 @@ class FnBody:
                 self.env[node[1]] = (coq_ident(node[1]), ty[1])
                 self.declared[-1].add(node[1])
                 o.append(("try", t, coq_ident(node[1]), brk))
+            elif kind == "for" and isinstance(node[1], tuple):
+                if elty[0] != "tuple" or len(elty[1]) != len(node[1]):
+                    raise ParseError("tuple pattern over elements of type %r" % (elty,))
+                for n, nty in zip(node[1], elty[1]):
+                    self.env[n] = (coq_ident(n), nty)
+                    self.declared[-1].add(n)
             elif kind == "for" and node[1] is not None:
                 self.env[node[1]] = (coq_ident(node[1]), elty)
                 self.declared[-1].add(node[1])
             try:
-                if self.inline_block(body, o):
+                if self.inline_block(body, o, allow=set(self.declared[-1])):
                     return o.pop()[1]
                 return render(o, cont)
             finally:
@@ -2340,7 +2542,8 @@ class FnBody:
         mpat = "_" if not cn else state
         term = term.replace(ph, state)
         if kind == "for":
-            x = "_" if node[1] is None else coq_ident(node[1])
+            x = "_" if node[1] is None else "'(%s)" % ", ".join(coq_ident(n) for n in node[1]) \
+                if isinstance(node[1], tuple) else coq_ident(node[1])
             comb = "fold_res" if cont.startswith("Ok @") else "fold_res_brk"
             loop = "%s (fun %s %s =>\n%s\n  ) %s %s" % (comb, bpat, x, indent(term, 4), lst, state)
             if comb == "fold_res_brk":
@@ -2531,9 +2734,23 @@ class FnBody:
         else:
             cty = "res %s" % coq_type(ret)
         ps = []
+        if self.uses_kind:
+            ps.append("(kind_ : bkind)")
         if self.kind != "static":
             ps.append("(self : %s)" % coq_type(("struct", self.owner)))
         ps += ["(%s : %s)" % (coq_ident(n), coq_type(t)) for n, t in self.params]
+        fuel = self.gen.recursion.get((self.mod, self.name))
+        if fuel is not None:
+            # a self-recursive function: a fixpoint on explicit fuel (exhaustion = Panic; the tie lemma proves the
+            # generated function equal to a fuel-free model, so the registered bound is large enough) and its entry point
+            if self.uses_kind or self.mutparams:
+                raise ParseError("unsupported recursive function")
+            args = (["self"] if self.kind != "static" else []) + [coq_ident(n) for n, _ in self.params]
+            text = ("Fixpoint %s_%s_rec (fuel_ : nat) (c : cfg) %s{struct fuel_} : %s :=\n  match fuel_ with\n  | O => Panic\n"
+                    "  | Datatypes.S fuel_ =>\n%s\n  end.\n\nDefinition %s_%s (c : cfg) %s: %s :=\n  %s_%s_rec %s c %s.") % (
+                self.mod, self.name, "".join(p + " " for p in ps), cty, indent(term, 4),
+                self.mod, self.name, "".join(p + " " for p in ps), cty, self.mod, self.name, fuel, " ".join(args))
+            return text, False
         text = "Definition %s_%s (c : cfg) %s: %s :=\n%s." % (
             self.mod, self.name, "".join(p + " " for p in ps), cty, indent(term))
         return text, pure
@@ -2609,6 +2826,30 @@ def gen_methods(repo):
 #  * `if let Some(x) = e { .. v } else { .. w }` as the value of the function: a `match`; with `&mut self.f` as the
 #    scrutinee x is a local copy written back (`self.f = Some(x)`) at the end of the block (the block must not leave
 #    early and its value must not mention x).
+#
+# Forms added for the DACs and the wavelet matrix (DacsByte, DacsOpt, WaveletMatrix<B> and their iterators; tied by
+# Proofs/LoopsTieDW.v):
+#  * vectors of vectors / of structs: `vec![e; n]` for any element, `vec![vec![]; n]` (the rows learn their element type
+#    at the first push), `v[i]` for any element type (`idx d v i`, d an arbitrary value of the type: idx panics out of
+#    range and never returns d), places `v[i]`, `m[j][r]`: `m[j][r] = e` reads the row (bounds check), checks r, and
+#    writes `setN m j (setN row r e)`; `v[i].push(e)`, `v[i].mutator(..)` write the element back the same way.
+#  * `v.iter().map(f).collect()` / `v.into_iter().map(f).collect()` with a closure or a function path: `map` (effect-free
+#    f) or `map_res` (Base/Res.v); `v.iter().sum::<usize>()`: a fold of checked `+`; `v.iter().enumerate()` and a tuple
+#    pattern `for (j, &w) in ..`: a fold over `enumerate v` (Base/Loops.v); `(a..b).rev()`; `a..=b` (nrange_incl);
+#    `it.max()` on an iterator struct (iter_collect, list_max_opt); `extend_from_slice`; `(a..b).len()`; `r.len()`.
+#  * u8: `u8::try_from(e)` is a Result that is Err iff e >= 256, `usize::from(u8)` the identity; `a.min(b)`; `*r`.
+#  * `assert_eq!` / `assert_ne!` / `debug_assert_eq!` (the comparison, left operand first); `continue` (the step of the
+#    loop ends with the current state); a `let` may shadow the pattern variable of its loop.
+#  * a hand-written `impl Default`: `Self::default()` calls the generated function.
+#  * `Trait::method(&x, ..)` for the traits of bit_vectors.rs is `x.method(..)`.
+#  * the type parameter B of WaveletMatrix<B> (bounds Access + Build + NumBits + Rank + Select) is the sum type `backing`
+#    of Model/Wavelet.v (BRank9 | BDArray | BBitVec): a method call on a value of type B becomes a call of the dispatch
+#    function `backing_<method>`, defined in the generated file by cases over the generated impls of the three types
+#    (LoopsGen.backing_dispatch checks the trait declarations, the provided method `num_zeros`, and that each impl has
+#    the signature of the trait); `B::build_from_bits(..)` dispatches on an explicit parameter `kind_ : bkind` of the
+#    generated function (WaveletMatrix::new).
+#  * self-recursive functions (LOOP_RECURSION): a fixpoint `<name>_rec` on explicit fuel (exhaustion = Panic) and the
+#    entry point `<name>` that supplies the registered fuel.
 # ---------------------------------------------------------------------------------------------
 
 LOOP_RECORDS = {
@@ -2626,10 +2867,19 @@ LOOP_RECORDS_SEQ = {
     "PsIter": ("psiter", [("efl", "&'a PrefixSummedEliasFano", "pi_efl"), ("pos", "usize", "pi_pos")]),
 }
 LOOP_RECORDS.update(LOOP_RECORDS_SEQ)
-RUST_NAME.update({"EfIter": "Iter", "CvIter": "Iter", "PsIter": "Iter"})
+# iterator structs of the DACs and of the wavelet matrix (Proofs/LoopsTieDW.v)
+LOOP_RECORDS_DW = {
+    "DbIter": ("dbiter", [("seq", "&'a DacsByte", "dbi_seq"), ("pos", "usize", "dbi_pos")]),
+    "DoIter": ("doiter", [("seq", "&'a DacsOpt", "doi_seq"), ("pos", "usize", "doi_pos")]),
+    "WmIter": ("wmiter", [("wm", "&'a WaveletMatrix<B>", "wi_wm"), ("pos", "usize", "wi_pos")]),
+}
+LOOP_RECORDS.update(LOOP_RECORDS_DW)
+RUST_NAME.update({"EfIter": "Iter", "CvIter": "Iter", "PsIter": "Iter", "DbIter": "Iter", "DoIter": "Iter", "WmIter": "Iter"})
 # the struct called `Iter` in the file of each of these owners
 LOOP_ITER_ALIAS = {"EliasFano": "EfIter", "EfIter": "EfIter", "CompactVector": "CvIter", "CvIter": "CvIter",
-                   "PrefixSummedEliasFano": "PsIter", "PsIter": "PsIter"}
+                   "PrefixSummedEliasFano": "PsIter", "PsIter": "PsIter",
+                   "DacsByte": "DbIter", "DbIter": "DbIter", "DacsOpt": "DoIter", "DoIter": "DoIter",
+                   "WaveletMatrix": "WmIter", "WmIter": "WmIter"}
 RECORDS.update(LOOP_RECORDS)
 RECORDS["Rank9Sel"] = ("r9sel", [("bv", "BitVector", "r9_bv"), ("rs", "Rank9SelIndex", "r9_rs")])   # Model/Rank9.v
 RECORDS["EliasFanoBuilder"] = ("efbuilder", [                                                        # Model/EliasFano.v
@@ -2639,6 +2889,9 @@ RECORDS["EliasFanoBuilder"] = ("efbuilder", [                                   
 RECORDS["SArray"] = ("sarray", [("ef", "Option<EliasFano>", "sa_ef"), ("num_bits", "usize", "sa_num_bits"),   # Model/SArray.v
                                 ("num_ones", "usize", "sa_num_ones"), ("has_rank", "bool", "sa_has_rank")])
 RECORDS["PrefixSummedEliasFano"] = ("psef", [("ef", "EliasFano", "ps_ef")])                              # Model/Psef.v
+RECORDS["DacsByte"] = ("dacsbyte", [("data", "Vec<Vec<u8>>", "db_data"), ("flags", "Vec<Rank9Sel>", "db_flags")])      # Model/Dacs.v
+RECORDS["DacsOpt"] = ("dacsopt", [("data", "Vec<CompactVector>", "do_data"), ("flags", "Vec<Rank9Sel>", "do_flags")])  # Model/Dacs.v
+RECORDS["WaveletMatrix"] = ("wavelet", [("layers", "Vec<B>", "wm_layers"), ("alph_size", "usize", "wm_alph_size")])    # Model/Wavelet.v
 
 LOOP_TYPE_FILES = {
     "BitVector": "src/bit_vectors/bit_vector.rs",
@@ -2658,6 +2911,13 @@ LOOP_TYPE_FILES = {
     "SArray": "src/bit_vectors/sarray.rs",
     "PrefixSummedEliasFano": "src/int_vectors/prefix_summed_elias_fano.rs",
     "PsIter": "src/int_vectors/prefix_summed_elias_fano.rs",
+    # Proofs/LoopsTieDW.v
+    "DacsByte": "src/int_vectors/dacs_byte.rs",
+    "DbIter": "src/int_vectors/dacs_byte.rs",
+    "DacsOpt": "src/int_vectors/dacs_opt.rs",
+    "DoIter": "src/int_vectors/dacs_opt.rs",
+    "WaveletMatrix": "src/char_sequences/wavelet_matrix.rs",
+    "WmIter": "src/char_sequences/wavelet_matrix.rs",
 }
 LOOP_MODULES = [
     ("bit_vector", "BitVector", "bit_vector"),
@@ -2676,6 +2936,13 @@ LOOP_MODULES = [
     ("sarray", "SArray", None),
     ("psef", "PrefixSummedEliasFano", None),
     ("psef_iter", "PsIter", None),
+    # Proofs/LoopsTieDW.v
+    ("dacs_byte", "DacsByte", "dacs_byte"),
+    ("dacs_byte_iter", "DbIter", None),
+    ("dacs_opt", "DacsOpt", None),
+    ("dacs_opt_iter", "DoIter", None),
+    ("wavelet_matrix", "WaveletMatrix", None),
+    ("wavelet_matrix_iter", "WmIter", None),
 ]
 LOOP_TARGETS = {
     "bit_vector": [(None, "new"), (None, "from_bit"), (None, "from_bits"), ("Extend", "extend"), ("Rank", "rank1"),
@@ -2707,10 +2974,37 @@ LOOP_TARGETS = {
                ("Select", "select1")],
     "psef": [(None, "from_slice"), (None, "len"), (None, "sum"), ("Access", "access")],
     "psef_iter": [(None, "new"), ("Iterator", "next"), ("Iterator", "size_hint")],
+    # Proofs/LoopsTieDW.v
+    "dacs_byte": [("Default", "default"), (None, "from_slice"), (None, "len"), (None, "is_empty"), (None, "num_levels"),
+                  (None, "widths"), ("Access", "access"), (None, "iter"), ("Build", "build_from_slice"),
+                  ("NumVals", "num_vals")],
+    "dacs_byte_iter": [(None, "new"), ("Iterator", "next"), ("Iterator", "size_hint")],
+    "dacs_opt": [("Default", "default"), (None, "compute_opt_widths"), (None, "build"), (None, "from_slice"), (None, "len"),
+                 (None, "is_empty"), (None, "num_levels"), (None, "widths"), ("Access", "access"), (None, "iter"),
+                 ("Build", "build_from_slice"), ("NumVals", "num_vals")],
+    "dacs_opt_iter": [(None, "new"), ("Iterator", "next"), ("Iterator", "size_hint")],
+    "wavelet_matrix": [(None, "filter"), (None, "new"), (None, "len"), (None, "is_empty"), (None, "alph_size"),
+                       (None, "alph_width"), (None, "access"), (None, "rank_range"), (None, "rank"),
+                       (None, "select_helper"), (None, "select"), (None, "quantile"), (None, "intersect_helper"),
+                       (None, "intersect"), (None, "iter")],
+    "wavelet_matrix_iter": [(None, "new"), ("Iterator", "next"), ("Iterator", "size_hint")],
 }
+# added to the older modules for the wavelet matrix
+LOOP_TARGETS["bit_vector"] += [("Build", "build_from_bits")]
+LOOP_TARGETS["compact_vector"] += [(None, "is_empty"), (None, "iter")]
 # targets of the first modules that are emitted after all of them (added later; the order of the older definitions in
 # gen/LoopsGen.v is kept)
 LOOP_LATE = {("bit_vector", "iter"), ("bit_vector", "unary_iter")}
+# likewise: emitted after the sequence modules, before the DACs
+LOOP_LATE_DW = {("bit_vector", "build_from_bits"), ("compact_vector", "is_empty"), ("compact_vector", "iter")}
+# self-recursive functions: (module, fn) -> fuel of the generated fixpoint (FnBody.run).  Every call of these two
+# functions either stops (depth == alph_width), panics (`self.layers[depth]` out of range) or recurses with depth + 1,
+# so a call tree is at most alph_width + 1 deep; the tie lemmas prove the generated functions equal to the fuel-free
+# models (structural recursion over the remaining layers), which fails if the fuel were too small.
+LOOP_RECURSION = {("wavelet_matrix", "select_helper"): "(Datatypes.S (length (wm_layers self)))",
+                  ("wavelet_matrix", "intersect_helper"): "(Datatypes.S (length (wm_layers self)))"}
+# the three types instantiating the parameter B of WaveletMatrix<B>: constructor of `backing`, of `bkind`, Rust type
+BACKINGS = [("BRank9", "KRank9", "Rank9Sel"), ("BDArray", "KDArray", "DArray"), ("BBitVec", "KBitVec", "BitVector")]
 # functions of broadword.rs called in their generated form (gen/BroadwordGen.v): name -> (parameter types, result type)
 LOOP_BROADWORD_FNS = {"uleq_step_9": (["usize", "usize"], "usize")}
 # constants a module imports from its parent: module -> (required `use` line, module of the constants)
@@ -2719,6 +3013,7 @@ LOOP_IMPORTED_CONSTS = {"UnaryIter": ("use super::WORD_LEN;", "BitVector", ["WOR
 
 class LoopsGen(MethodsGen):
     type_files, modules, targets = LOOP_TYPE_FILES, LOOP_MODULES, LOOP_TARGETS
+    recursion = LOOP_RECURSION
 
     def __init__(self, repo):
         MethodsGen.__init__(self, repo)
@@ -2773,6 +3068,7 @@ class LoopsGen(MethodsGen):
         out = MethodsGen.generics(self, owner, trait, name)
         if owner in LOOP_ITER_ALIAS:
             out["Iter"] = ("struct", LOOP_ITER_ALIAS[owner])
+            out["Iter<B>"] = ("struct", LOOP_ITER_ALIAS[owner])
         return out
 
     def iterator_next(self, owner):
@@ -2785,19 +3081,80 @@ class LoopsGen(MethodsGen):
             raise ParseError("%s::next does not return an Option" % owner)
         return info["name"], rty[1]
 
+    def backing_dispatch(self):
+        """the dispatch functions `backing_<method>` for values of the type parameter B of WaveletMatrix<B> (bounds
+        Access + Build + NumBits + Rank + Select): by cases on the three supported types, calling the generated impls;
+        `num_zeros` is the provided method of trait NumBits.  Emitted once, before the first function that uses them."""
+        key = ("@backing", "dispatch")
+        if key in self.done:
+            return
+        traits = strip_line_comments(open(os.path.join(self.repo, "src/bit_vectors.rs")).read())
+        provided = {}
+        for trait, methods in BACKING_TRAITS.items():
+            m = re.search(r"pub trait %s\s*\{" % trait, traits)
+            if not m:
+                raise ParseError("src/bit_vectors.rs: trait %s not found" % trait)
+            body = traits[m.end() - 1:rp.find_matching(traits, m.end() - 1) + 1]
+            declared = re.findall(r"\bfn\s+([a-z_0-9]+)", body)
+            if sorted(declared) != sorted(methods):
+                raise ParseError("src/bit_vectors.rs: trait %s declares %r, expected %r" % (trait, declared, methods))
+            for n, ps, r, b, _ in rp.functions(body):           # provided methods (with a body)
+                provided[n] = " ".join(b.split())
+        if provided != {"num_zeros": "{ self.num_bits() - self.num_ones() }"}:
+            raise ParseError("src/bit_vectors.rs: the provided trait methods changed: %r" % (provided,))
+        msig = re.search(r"fn build_from_bits<I>\(\s*bits: I,\s*with_rank: bool,\s*with_select1: bool,\s*with_select0: bool,?\s*\)"
+                         r"\s*->\s*Result<Self>\s*where\s*I: IntoIterator<Item = bool>,\s*Self: Sized;", traits)
+        if not msig:
+            raise ParseError("src/bit_vectors.rs: Build::build_from_bits changed its signature")
+        lines = ["(* values of the type parameter B of WaveletMatrix<B>: dispatch over the three supported types *)"]
+        for name, (ptys, rty) in BACKING_METHODS.items():
+            if name == "num_zeros":
+                continue
+            trait = [t for t, ms in BACKING_TRAITS.items() if name in ms][0]
+            ps = ["x%d_" % i for i in range(len(ptys))]
+            cases = []
+            for ctor, _, owner in BACKINGS:
+                if any(t == trait and n == "num_zeros" for (t, n) in self.fns[owner]) or owner not in self.src:
+                    raise ParseError("%s overrides NumBits::num_zeros" % owner)
+                how, what, (skind, sp, sr) = self.resolve_callee("@backing", owner, name)
+                if how != "gen" or skind != "ref" or [t for _, t in sp] != ptys or sr != rty:
+                    raise ParseError("%s::%s does not have the signature of trait %s" % (owner, name, trait))
+                cases.append("  | %s v_ => %s c v_%s" % (ctor, what, "".join(" " + p for p in ps)))
+            lines.append("Definition backing_%s (c : cfg) (b_ : backing)%s : res %s :=\n  match b_ with\n%s\n  end." % (
+                name, "".join(" (%s : %s)" % (p, coq_type(t)) for p, t in zip(ps, ptys)), coq_type(rty), "\n".join(cases)))
+        lines.append("Definition backing_num_zeros (c : cfg) (b_ : backing) : res N :=\n"
+                     "  t1 <- backing_num_bits c b_ ;;\n  t2 <- backing_num_ones c b_ ;;\n  sub c t1 t2.")
+        cases = []
+        for ctor, kctor, owner in BACKINGS:
+            how, what, (skind, sp, sr) = self.resolve_callee("@backing", owner, "build_from_bits")
+            if how != "gen" or skind != "static" or [t for _, t in sp] != [("vec", BOOL), BOOL, BOOL, BOOL] \
+                    or sr != ("result", ("struct", owner)):
+                raise ParseError("%s::build_from_bits does not have the signature of trait Build" % owner)
+            cases.append("  | %s => rmap (option_map %s) (%s c bits_ r_ s1_ s0_)" % (kctor, ctor, what))
+        lines.append("Definition backing_build_from_bits (c : cfg) (kind_ : bkind) (bits_ : list bool) (r_ s1_ s0_ : bool) "
+                     ": res (option backing) :=\n  match kind_ with\n%s\n  end." % "\n".join(cases))
+        self.done[key] = dict(name="backing_dispatch", text="\n\n".join(lines), pure=False, kind=False)
+        self.order.append(key)
+
     def run(self):
-        late = []
+        late, late_dw = [], []
         for mod, _, _ in self.modules:
             if mod == "compact_vector":                      # the first of the newer modules
                 for m, n in late:
                     self.translate(m, n)
                 late = []
+            if mod == "dacs_byte":                           # the first of the modules of Proofs/LoopsTieDW.v
+                for m, n in late_dw:
+                    self.translate(m, n)
+                late_dw = []
             for _, name in self.targets[mod]:
                 if (mod, name) in LOOP_LATE:
                     late.append((mod, name))
+                elif (mod, name) in LOOP_LATE_DW:
+                    late_dw.append((mod, name))
                 else:
                     self.translate(mod, name)
-        for m, n in late:
+        for m, n in late + late_dw:
             self.translate(m, n)
         return [self.done[k]["text"] for k in self.order]
 
@@ -2812,6 +3169,7 @@ From Sucds Require Import Base.Res Base.Loops Spec.WordSpec Model.BitVector Mode
   gen.MethodsGen.
 From Sucds Require gen.BroadwordGen.
 From Sucds Require Import Model.CompactVector Model.EliasFano Model.SArray Model.Psef.
+From Sucds Require Import Model.Dacs Model.Wavelet.
 Open Scope N_scope.
 """
 
